@@ -5,7 +5,6 @@ import (
 	"fmt"
 	"image"
 	"image/color"
-	"math"
 )
 
 type wrapFunc func(x, y int) color.Color
@@ -88,7 +87,10 @@ func scale2DCode(bc Barcode, width, height int, fill color.Color) (Barcode, erro
 	orgWidth := orgBounds.Max.X - orgBounds.Min.X
 	orgHeight := orgBounds.Max.Y - orgBounds.Min.Y
 
-	factor := int(math.Min(float64(width)/float64(orgWidth), float64(height)/float64(orgHeight)))
+	factor := width / orgWidth
+	if fy := height / orgHeight; fy < factor {
+		factor = fy
+	}
 	if factor <= 0 {
 		return nil, fmt.Errorf("can not scale barcode to an image smaller than %dx%d", orgWidth, orgHeight)
 	}
@@ -118,7 +120,7 @@ func scale2DCode(bc Barcode, width, height int, fill color.Color) (Barcode, erro
 func scale1DCode(bc Barcode, width, height int, fill color.Color) (Barcode, error) {
 	orgBounds := bc.Bounds()
 	orgWidth := orgBounds.Max.X - orgBounds.Min.X
-	factor := int(float64(width) / float64(orgWidth))
+	factor := width / orgWidth
 
 	if factor <= 0 {
 		return nil, fmt.Errorf("can not scale barcode to an image smaller than %dx1", orgWidth)
